@@ -429,6 +429,10 @@ pub struct PartFlags {
     pub selected: bool,
     pub null_in_input: bool,
     pub k_beyond_len: bool,
+    /// some call produced a number of entries other than k+1. Asserted by the harness *after* all calls
+    /// (Kani cuts the path at a failed assertion; the pinned vpartition fails this for every input of the
+    /// sorted k+1 > len calls, which would hide everything behind the first such call).
+    pub count_bad: bool,
 }
 impl PartFlags {
     pub fn merge(&mut self, o: PartFlags) {
@@ -436,6 +440,7 @@ impl PartFlags {
         self.selected |= o.selected;
         self.null_in_input |= o.null_in_input;
         self.k_beyond_len |= o.k_beyond_len;
+        self.count_bad |= o.count_bad;
     }
 }
 
@@ -538,8 +543,7 @@ where
         // not dropped: dropping a `Box<dyn TrustedLen>` is a virtual call over every candidate pipeline
         std::mem::forget(it);
     }
-    let fl = PartFlags { padded: n < k + 1, selected: n > k + 1, null_in_input: n < N, k_beyond_len: k + 1 > N };
-    assert!(cnt == k + 1, "partition yields exactly k+1 entries");
+    let fl = PartFlags { padded: n < k + 1, selected: n > k + 1, null_in_input: n < N, k_beyond_len: k + 1 > N, count_bad: cnt != k + 1 };
     judge_entries(&got, cnt, &want, n, k, sort, false);
     fl
 }
@@ -568,8 +572,7 @@ where
         // not dropped: dropping a `Box<dyn TrustedLen>` is a virtual call over every candidate pipeline
         std::mem::forget(it);
     }
-    let fl = PartFlags { padded: n < k + 1, selected: n > k + 1, null_in_input: n < N, k_beyond_len: k + 1 > N };
-    assert!(cnt == k + 1, "arg-partition yields exactly k+1 entries");
+    let fl = PartFlags { padded: n < k + 1, selected: n > k + 1, null_in_input: n < N, k_beyond_len: k + 1 > N, count_bad: cnt != k + 1 };
     // indices -> keys; pads are -1
     let mut got: [Option<i32>; M] = [None; M];
     let mut j = 0;
